@@ -9,3 +9,7 @@ import DateutilVerif.Properties.C08
 #print axioms C08.parse_J_rule
 #print axioms C08.parse_N_rule
 #print axioms C08.parse_rule_hour
+#print axioms C08.range_transitions
+#print axioms C08.tzstr_posix_partial
+#print axioms C08.tzstr_posix_midyear_partial
+#print axioms C08.tzrange_eq_tzstr
